@@ -27,6 +27,9 @@ mod sched;
 mod refresh;
 mod upgrade;
 mod contact;
+mod resource;
+mod nodeage;
+mod regen;
 mod tl;
 
 fn main() {
@@ -88,6 +91,9 @@ fn run(module: &str, command: &str, kv: &common::Args) -> i32 {
         ("refresh", "drive") => refresh::drive(kv),
         ("upgrade", "drive") => upgrade::drive(kv),
         ("contact", "drive") => contact::drive(kv),
+        ("resource", "drive") => resource::drive(kv),
+        ("nodeage", "drive") => nodeage::drive(kv),
+        ("regen", "drive") => regen::drive(kv),
         (m, c) => {
             eprintln!("unknown module/command {m} {c}");
             2
